@@ -8,6 +8,7 @@
 import Dlismodel.Model.Hc
 import Dlismodel.Generated.Obligations
 import Dlismodel.Proofs.Convert
+import Dlismodel.Proofs.Checks
 namespace Dlis.C17
 open Dlis
 
@@ -140,5 +141,36 @@ theorem units_restricted {a : AttrSpec} {um : List PStr} {st st' : AttrState} {u
       rcases enum_strict (by simp) hr with ⟨_, hu, _⟩ | ⟨s, ec, p, hu, _, hm⟩
       · subst hu; simp at h; exact Or.inl ⟨rfl, by rw [← h]⟩
       · subst hu; simp at h; exact Or.inr ⟨s, ec, p, rfl, by rw [← h], hm⟩
+
+/-! ### channels in no or several frames (`Model/Checks.lean`) -/
+
+/-- in the mode, a write that is accepted has every channel of every logical file listed exactly once by the frames of
+that logical file -/
+theorem channels_in_exactly_one_frame (w : World) (c f : Nat) (es : List Edge) (fid : Nat → Bool)
+    (h : acceptWriteHc true w c f es fid = .ok ()) (lf : Nat) (hlf : lf < w.keys.length)
+    (i : Nat) (hi : i < w.items.length) (hk : w.items[i].kind = c) (hin : w.items[i].key ∈ lfKeys w lf) :
+    channelUses w lf f es i = 1 := by
+  have hc := acceptWriteHc_counts w c f es fid h lf hlf
+  unfold checkChannelCounts at hc
+  split at hc
+  · rename_i hall
+    simp only [Bool.not_true, Bool.false_or] at hall
+    have := List.all_eq_true.mp hall i (by simp [hi])
+    have hinl : inLf w lf i = true := (inLf_iff w lf i).mpr ⟨hi, hin⟩
+    simpa [hinl, List.getElem?_eq_getElem hi, hk] using this
+  · cases hc
+
+/-- outside the mode the count of frames per channel refuses nothing: the checks are those of C07 / C12 -/
+theorem channel_counts_only_in_mode (w : World) (c f : Nat) (es : List Edge) (fid : Nat → Bool) :
+    acceptWriteHc false w c f es fid = acceptWrite w c f es fid := acceptWriteHc_false w c f es fid
+
+/-- non-vacuity: a channel listed by two frames / by none is refused in the mode and accepted outside it -/
+example :
+    let w := run (World.init 1) [.origin 0 none [79] none .ok, .item 0 11 none [67] none .ok, .item 0 11 none [68] none .ok,
+      .item 0 12 none [70] none .ok, .item 0 12 none [71] none .ok]
+    acceptWriteHc true w 11 12 [⟨3, 1, true⟩, ⟨4, 2, true⟩] (fun _ => true) = .ok () ∧
+    acceptWriteHc true w 11 12 [⟨3, 1, true⟩, ⟨4, 1, true⟩, ⟨4, 2, true⟩] (fun _ => true) = .error .channelFrameCount ∧
+    acceptWriteHc true w 11 12 [⟨3, 1, true⟩, ⟨4, 1, true⟩] (fun _ => true) = .error .channelFrameCount ∧
+    acceptWriteHc false w 11 12 [⟨3, 1, true⟩, ⟨4, 1, true⟩] (fun _ => true) = .ok () := by decide +kernel
 
 end Dlis.C17
